@@ -616,4 +616,6 @@ need_brace = Fn(S, 'need_expand_brace', ret='r', props=('C12', 'C05'),
     ensures=[('C12.gate.brace.the_pattern_matches_and_the_word_is_within_the_nesting_limit', 'r == spec_need_expand_brace(line@)'),
              ('C05.gate.brace.the_recursive_parser_is_given_only_words_within_the_nesting_limit', "r ==> nest(line@, '{', '}') <= MAX_NESTING as int")])
 UNIT = Unit('U-EXP1', TEMPLATE, fns=[common.has_operator_fn(), common.in_assignment_prefix_fn(), need_brace, brace_getitem, brace_getgroup, expand_brace, expand_glob, expand_brace_range], types=[TypeItem('src/tools.rs', 'const', 'MAX_NESTING')], props=('C12', 'C13', 'C01', 'C05'))
-TRUSTED = common.TRUSTED_STR + common.TRUSTED_TOKEN + []
+TRUSTED = common.TRUSTED_STR + common.TRUSTED_TOKEN + [
+    'the machine stack is treated as unbounded: termination (decreases) is proved for the recursive brace parser, the substitution pass and the callers of the calculator, their recursion DEPTH is not; it is bounded by tools::MAX_NESTING (<= 200 required; 1000 levels were measured to fit the 8 MB main stack of a debug build) through the gates need_expand_brace / should_do_dollar_command_extension / run_calculator, which are under contract',
+]
